@@ -12,7 +12,7 @@ import json, subprocess, os
 from lib.common import *
 from lib import kanirun
 
-KDIR = os.path.join(VERIF, 'kani')
+KDIR = kanirun.KDIR
 
 
 def gen(args):
